@@ -20,9 +20,13 @@ type c04Case struct {
 	Limit       int         `json:"limit"`
 	DeleteAfter int         `json:"deleteAfter"`
 	DeleteOther bool        `json:"deleteOther"` // delete an already returned item other than the boundary item
+	// Second: after the walk, the same read in the opposite direction (Query) is
+	// walked with this Limit on the same client (0 = no second walk)
+	Second int `json:"second,omitempty"`
 }
 
 type c04Info struct {
+	second      bool
 	pages       int
 	emptyPage   bool
 	tieBoundary bool
@@ -136,6 +140,18 @@ func runC04(c c04Case, info *c04Info) *failure {
 		if f := paginate(d, w, c, info); f != nil {
 			return f
 		}
+		if c.Second > 0 {
+			// a second walk on the same client and state, in the other direction
+			c2 := c
+			c2.Limit = c.Second
+			if c2.Read.Kind == "Query" {
+				c2.Read.Backward = !c2.Read.Backward
+			}
+			if f := paginate(d, w, c2, &c04Info{}); f != nil {
+				return f
+			}
+			info.second = true
+		}
 	}
 	return nil
 }
@@ -150,7 +166,7 @@ func init() {
 	}
 }
 
-const ruleC04 = "rapid: a table state built by a generated write history (hash+range schema, 0-2 indexes, index keys with many ties, 1-3 partitions; a tenth of the cases with 33-70 items in one or two partitions), a generated Query or Scan (key-condition shapes of C02, optional filter, both directions, table or index) and a Limit drawn from 1..n+2; metamorphic oracle on each SDK client against itself: following LastEvaluatedKey until none is returned yields exactly the item sequence of the same request without Limit, every page has at most Limit items, the number of pages is bounded by items+4, Count == len(Items); optionally the item named by the LastEvaluatedKey of page k (or another already returned item) is deleted before continuing, and the remaining pages must be the not-yet-returned items of the new unpaginated result in order. Non-trivial = >= 3 pages, or a page of filtered-out items only, or a boundary delete; distinct = hash of (state, read, limit, delete plan)."
+const ruleC04 = "rapid: a table state built by a generated write history (hash+range schema, 0-2 indexes, index keys with many ties, 1-3 partitions; a tenth of the cases with 33-70 items in one or two partitions), a generated Query or Scan (key-condition shapes of C02, optional filter, both directions, table or index) and a Limit drawn from 1..n+2; metamorphic oracle on each SDK client against itself: following LastEvaluatedKey until none is returned yields exactly the item sequence of the same request without Limit, every page has at most Limit items, the number of pages is bounded by items+4, Count == len(Items); optionally the same read is walked a second time on the same client and state in the opposite direction with another Limit; optionally the item named by the LastEvaluatedKey of page k (or another already returned item) is deleted before continuing, and the remaining pages must be the not-yet-returned items of the new unpaginated result in order. Non-trivial = >= 3 pages, or a page of filtered-out items only, or a boundary delete; distinct = hash of (state, read, limit, delete plan)."
 
 // TestC04 decides property C04.
 func TestC04(t *testing.T) {
@@ -158,7 +174,7 @@ func TestC04(t *testing.T) {
 	st.SetRule(ruleC04)
 	rapid.Check(t, func(rt *rapid.T) {
 		w := newWorld("C04", worldCfg{V1: true, V2: true})
-		s := drawSchema(rt, "tbl", schemaCfg{KeyTypes: []string{"S", "S", "S", "N"}, MaxIndexes: 2, ForceRange: 1})
+		s := drawSchema(rt, "tbl", schemaCfg{KeyTypes: []string{"S", "S", "N", "N", "B"}, MaxIndexes: 2, ForceRange: 1})
 		o := avOpts(1, true)
 		g := newTgen(rt, s, o, rapid.IntRange(3, 9).Draw(rt, "poolSize"))
 		g.maxAttrs = 2
@@ -216,7 +232,16 @@ func TestC04(t *testing.T) {
 			failSetup(f)
 		}
 		read := g.readOp(rt, w.m, 40)
-		if ids := guardOp(read, w.m, true); len(ids) > 0 {
+		// (F-NUMSORT - number and binary sort keys ordered by their text - is
+		// about which order a read returns; the oracle here compares a client
+		// with itself, so that finding needs no guard)
+		var ids []string
+		for _, id := range guardOp(read, w.m, true) {
+			if id != "F-NUMSORT" {
+				ids = append(ids, id)
+			}
+		}
+		if len(ids) > 0 {
 			for _, id := range ids {
 				st.Exclude(id)
 			}
@@ -232,6 +257,8 @@ func TestC04(t *testing.T) {
 		if rapid.IntRange(0, 9).Draw(rt, "boundaryDelete") < 4 {
 			c.DeleteAfter = rapid.IntRange(1, 3).Draw(rt, "deleteAfterPage")
 			c.DeleteOther = rapid.IntRange(0, 3).Draw(rt, "deleteOther") == 0
+		} else if rapid.IntRange(0, 2).Draw(rt, "secondWalk") == 0 {
+			c.Second = rapid.IntRange(1, total+2).Draw(rt, "secondLimit")
 		}
 		pending("C04", "c04", c)
 		info := &c04Info{}
@@ -249,6 +276,9 @@ func TestC04(t *testing.T) {
 		}
 		if large {
 			st.Class("large-table")
+		}
+		if info.second {
+			st.Class("second-walk-in-the-other-direction")
 		}
 		if read.Index != "" {
 			st.Class("read-on-index")
